@@ -247,6 +247,12 @@ def run(ctx):
     ctx.holds('R20g', exm_, None, 'no loop target shadows a value read after the loop in the error classes',
               construct='loop shadowing scan', trivial=True)
 
+    # ---- R20h (C09 R09c): error objects do not share their list of open blocks
+    ctx.rule('R20h', 'no mutable default argument value is mutated or stored (the open-blocks list of an error is its own: a '
+                     'report never lists the blocks of an earlier document) (C09 R09c)', 4)
+    from . import c09 as _c09, c05 as _c05
+    _c09._mutable_defaults(_c05._Sub(ctx, 'R20h'), repo)
+
     return 'other', _expl()
 
 
